@@ -1,18 +1,18 @@
 CONSTANTS MaxAtom = 2
- Objs = {o1, o2}
- Depth = 9
+ Objs = {o1}
+ Depth = 100
  FlushOnDelete = TRUE
  FlushOnCommit = TRUE
  ResetChangedOnAbort = TRUE
  DiscardOnDelete = TRUE
  RecalcAllOnCommit = TRUE
  InitSlotsOnCopy = TRUE
- RestoreCacheOnAbort = TRUE
+ RestoreCacheOnAbort = FALSE
  FullFlushOnSpecialDelete = TRUE
  Elems <- SmallElems
  Orders <- SmallOrders
  Charges <- SmallCharges
- Views <- OneView
+
 SPECIFICATION Spec
 CONSTRAINT Bound
 INVARIANT CacheCoherent
